@@ -205,6 +205,8 @@ def t_terminals():
                     want = model[-1] if model else None
                     if (m is None) != (want is None) or (m is not None and key(m) != want):
                         stats.fail("terminal:last_one", case, "last_one gives %s, model %s" % (m, want))
+                    elif drain(q) != []:
+                        stats.fail("terminal:last_one:rest", case, "after last_one() the query still yields matches (tail(1) leaves nothing behind its one match)")
                 elif term == "values":
                     if list(q.values()) != [o for _, o in model]:
                         stats.fail("view:values", case, "values() differs from the remaining matches")
